@@ -15,7 +15,7 @@ use crate::engine::*;
 use crate::models::*;
 use crate::{vensure, vfail};
 
-pub const RULE: &str = "histories of datagrams sent from 6 loopback client sockets (127.0.0.1 twice, 127.0.0.2, 127.0.0.3, ::1 twice) to running trackers (mio and io_uring backends, 1 and 3 socket workers, max_scrape_torrents in {3, 70}, plus one tracker with max_connection_age = 0 so every id is stale): well-formed connect / announce (4 events, port 0 allowed) / scrape (1..80 hashes, repeated, unknown) carrying an id that is own / issued to another socket on the same IP (valid) / issued to another IP / bit-flipped / random / zero, structure-aware mutations (truncate, extend, bit flips, action/event out of range, protocol id off by one, ragged hash list) and random bytes. Every sent datagram gets a unique transaction id; after each one the same socket sends a fence (connect) and all sockets are drained. Oracle per datagram: replies attributed by transaction id: at most one, only on the sending socket, none for unparseable input or an id not valid for the source IP, exactly one of the right kind (connect 16 bytes <= request; announce of the sender's family with counts/peers equal to reference model S built from the valid announces; scrape with exactly min(n, max) entries in request order; error only with a valid id) for well-formed requests. non-trivial = foreign/forged/stale id, a sendable parse error, a mutated message; distinct = distinct serialised history";
+pub const RULE: &str = "histories of datagrams sent from 6 loopback client sockets (127.0.0.1 twice, 127.0.0.2, 127.0.0.3, ::1 twice) to running trackers (mio and io_uring backends, 1 and 3 socket workers, max_scrape_torrents in {3, 70}, plus one tracker with max_connection_age = 0 so every id is stale): well-formed connect / announce (4 events, port 0 allowed) / scrape (1..408 hashes, repeated, unknown) carrying an id that is own / issued to another socket on the same IP (valid) / issued to another IP / bit-flipped / random / zero, structure-aware mutations (truncate, extend, bit flips, action/event out of range, protocol id off by one, ragged hash list) and random bytes. Every sent datagram gets a unique transaction id; after each one the same socket sends a fence (connect) and all sockets are drained. Oracle per datagram: replies attributed by transaction id: at most one, only on the sending socket, none for unparseable input or an id not valid for the source IP, exactly one of the right kind (connect 16 bytes <= request; announce of the sender's family with counts/peers equal to reference model S built from the valid announces; scrape with exactly min(n, max) entries in request order; error only with a valid id) for well-formed requests. non-trivial = foreign/forged/stale id, a sendable parse error, a mutated message; distinct = distinct serialised history";
 
 const IPS: [&str; 6] = ["127.0.0.1", "127.0.0.1", "127.0.0.2", "127.0.0.3", "::1", "::1"];
 
@@ -481,6 +481,8 @@ fn dg() -> impl Strategy<Value = Dg> {
         4 => prop_oneof![
             4 => proptest::collection::vec(0u8..6, 1..8),
             1 => proptest::collection::vec(0u8..6, 8..23),
+            // as many as a datagram can carry (the receive buffer takes 408)
+            1 => prop_oneof![Just(255usize), Just(256usize), Just(257usize), Just(300usize), 250usize..=408].prop_map(|n| (0..n).map(|i| (i % 6) as u8).collect::<Vec<u8>>()),
             1 => Just(vec![]),
         ].prop_map(|hashes| Kind::Scrape { hashes }),
         1 => prop_oneof![proptest::collection::vec(any::<u8>(), 0..40), proptest::collection::vec(any::<u8>(), 0..1500)].prop_map(Kind::Random),
